@@ -177,7 +177,8 @@ def oracleReq (s : OSt) (n b k : Nat) : OSt × String :=
       let total : Rat := ((W + k * b : Nat) : Rat)
       let idle : Bool := match s.lastPass with
         | none => true
-        | some t => decide (t + (max (idleSecs c) (Iv / 1000 + 2)) * 1000 ≤ s.now)
+        -- idle = nothing admitted for the refill time and for everything the previous-window read can still see (window + one view bucket)
+        | some t => decide (t + (max (idleSecs c) ((Iv + Iv / sc) / 1000 + 2)) * 1000 ≤ s.now)
       -- the threshold in force is observably below T: a request was refused although it would have fitted under T
       let notFull : Bool := decide (k < n) && decide (((W + (k + 1) * b : Nat) : Rat) ≤ c.T)
       -- sustained demand: run of consecutive seconds each bringing more than T single-token requests (any offsets); the run is
